@@ -70,7 +70,7 @@ pub fn generate(prop: &str, rng: &mut Rng, tier: Tier) -> Scenario {
     // C29 gets them too (run by one uninterrupted transact): the reserved receipt slots are where
     // "appending a panic receipt cannot fail" style assumptions live.
     let flood_run = (prop == "C28" && g.chance(1, if tier == Tier::Thorough { 200 } else { 1200 }))
-        || (prop == "C29" && g.chance(1, if tier == Tier::Thorough { 800 } else { 2500 }));
+        || (prop == "C29" && g.chance(1, if tier == Tier::Thorough { 800 } else { 1500 }));
     if flood_run {
         mix.log = 0;
         mix.transfer = 0;
@@ -189,7 +189,8 @@ pub fn generate(prop: &str, rng: &mut Rng, tier: Tier) -> Scenario {
         let flood = flood_run;
         let script = if flood {
             gas = GasSched::Unit;
-            let logs = 65_536 - g.below(9);
+            // the Call receipt of the first call lands on one of the last six slots
+            let logs = 65_535 - g.below(6);
             let mut call_mix = mix.clone();
             call_mix.call = 6;
             call_mix.log = 2;
